@@ -7,7 +7,7 @@ derivative of the monomial form for every order, end-point interpolation, and th
 closed-form Hermite control points meet every boundary condition.  Every state is replayed
 into the real code (engine A):
 
-  eval       Bezier(P, T).deriv(m).eval(t) and the chained .deriv()....deriv().eval(t)
+  eval       Bezier(P, T).eval(t), .deriv(m).eval(t) and the chained .deriv()....deriv().eval(t)
   traj       bezier3_traj / bezier7_traj (+ d/dt of output i == output i+1 by CasADi AD)
   solve      bezier3_solve / bezier7_solve: boundary functionals (matrix M proved by TLC)
              applied to the returned control points; the code's own traj at 0 and T;
@@ -27,6 +27,7 @@ BC_NAMES = {3: ["start_pos", "start_vel", "end_pos", "end_vel"],
             7: ["start_pos", "start_vel", "start_acc", "start_jerk", "end_pos", "end_vel", "end_acc", "end_jerk"]}
 ORDER = ["pos", "vel", "acc", "jerk", "snap"]
 MR_NAMES = ["x", "y", "z", "psi", "psidot", "psiddot"] + [f"{w}[{i}]" for w in "vajs" for i in range(3)]
+MR_OUT = [s.split("[")[0] for s in MR_NAMES]          # name of the CasADi output a component belongs to
 # (output index, index of the output that must be its time derivative)
 MR_PAIRS = [(0, 6), (1, 7), (2, 8), (3, 4), (4, 5)] + [(6 + i, 9 + i) for i in range(9)]
 
@@ -82,7 +83,9 @@ class Code:
         def mk():
             Pf, T, t = ca.SX.sym("P", dim * (n + 1)), ca.SX.sym("T"), ca.SX.sym("t")
             C = self.bz.Bezier(ca.reshape(Pf, dim, n + 1), T)
-            if mode == "deriv(m)":
+            if mode == "eval":
+                assert m == 0
+            elif mode == "deriv(m)":
                 C = C.deriv(m)
             else:
                 for _ in range(m):
@@ -139,8 +142,8 @@ def replay_eval(run, code, key, tvs):
     T = np.array([q(tv["T"]) for tv in tvs])
     t = np.array([q(tv["t"]) for tv in tvs])
     E = np.array([qv(tv["exp"]) for tv in tvs], float).T
-    for mode in (("deriv(m)", "chain") if m > 0 else ("deriv(m)",)):
-        fn = "Bezier.eval" if m == 0 else "Bezier.deriv"
+    for mode in (("deriv(m)", "chain") if m > 0 else ("eval", "deriv(m)")):
+        fn = "Bezier.eval" if mode == "eval" else "Bezier.deriv"
         f = code.eval_fn(n, dim, m, mode)
         if not built_ok(run, f, fn, tvs[0]):
             continue
@@ -153,9 +156,9 @@ def replay_eval(run, code, key, tvs):
         for k in np.nonzero(~good)[0]:
             tv, c = tvs[k], tcell(tvs[k])
             data = {"tv": tv, "mode": mode, "got": Y[:, k].tolist(), "expected": E[:, k].tolist()}
-            if m == 0 and c in ("t=0", "t=T"):
+            if mode == "eval" and c in ("t=0", "t=T"):
                 run.violation(f"Bezier.eval/endpoint/{c}", "curve does not start/end at its first/last control point", data)
-            elif m == 0:
+            elif mode == "eval":
                 run.violation(f"Bezier.eval/bernstein/{c}", "eval(t) differs from the Bernstein polynomial of the control points", data)
             else:
                 run.violation(f"Bezier.deriv/time_derivative/{mode}/{c}",
@@ -246,12 +249,12 @@ def replay_multi(run, code, tvs):
     if np.any(ok):
         run.err(float(np.max(e[ok])))
     for i, k in zip(*np.nonzero(~ok)):
-        run.violation(f"{fn}/value/{MR_NAMES[i]}", f"output {MR_NAMES[i]} is not the exact derivative of the axis curve",
+        run.violation(f"{fn}/value/{MR_OUT[i]}", f"output {MR_OUT[i]} is not the exact derivative of the axis curve",
                       {"tv": tvs[k], "got": dict(zip(MR_NAMES, V[:, k].tolist())), "expected": dict(zip(MR_NAMES, E[:, k].tolist()))})
     for a, d in MR_PAIRS:
         okd, _ = close(dV[a], V[d])
         for k in np.nonzero(~okd)[0]:
-            run.violation(f"{fn}/consistency/d_{MR_NAMES[a]}", f"d/dt {MR_NAMES[a]} (by AD) is not output {MR_NAMES[d]}",
+            run.violation(f"{fn}/consistency/d_{MR_OUT[a]}", f"d/dt {MR_OUT[a]} (by AD) is not output {MR_OUT[d]}",
                           {"tv": tvs[k], "got": dict(zip(MR_NAMES, V[:, k].tolist())), "d_dt": dict(zip(MR_NAMES, dV[:, k].tolist()))})
 
 
